@@ -132,6 +132,7 @@ def run_case(driver, seed, part, i, res, forced=None):
     limit_ = r.choice([None, None, 1, 2]) if loss and loss_shape == "gone" else None
     sim = simlib.Sim(driver, picker, answer=answer, hid_kwargs={"reconnect_interval": 0.5, "reconnect_limit": limit_} if loss else None)
     outcome = {}
+    caller_tasks = {}
     gens = {}
     progress_log = {}
 
@@ -290,8 +291,9 @@ def run_case(driver, seed, part, i, res, forced=None):
         for c, spec in enumerate(callers):
             t = vloop.CountingTask(body(c, spec), loop=asyncio.get_running_loop(), cancel_at=spec["cancel_at"])
             if spec["cancel_time"] is not None:
-                asyncio.get_running_loop().call_at(sim.world.now + spec["cancel_time"], t.cancel)
+                asyncio.get_running_loop().call_at(sim.world.now + spec["cancel_time"], t.external_cancel)
             tasks.append(t)
+            caller_tasks[c] = t
         if loss:
             try:
                 done = await asyncio.wait_for(asyncio.gather(*tasks, return_exceptions=True), 30.0)
@@ -420,6 +422,14 @@ def run_case(driver, seed, part, i, res, forced=None):
                     res.violation(f"C15/{driver}/sequence-exception-lost", f"the sequence raised Boom but the caller got {outcome.get(c)!r}", {**wit, "caller": c})
             if cancelled:
                 res.hit("cancelled_callers")
+                # a cancelled caller stops: whatever it had handed to the gateway may still go out, nothing new is written
+                # (0.15 s covers a send-twice command and a prefixed command already in the gateway's queue)
+                t_c = getattr(caller_tasks.get(c), "cancelled_at", None)
+                if t_c is not None and isinstance(outcome.get(c), BaseException) is False:
+                    late = [(hex(w["value"]), round(w["t"], 4)) for w, t in zip(wire, tags) if t == c and w["t"] > t_c + 0.15]
+                    if late:
+                        res.violation(f"C15/{driver}/cancellation-ignored/{spec['kind']}", f"caller {c} was cancelled at {t_c:.4f} and completed "
+                                      f"normally all the same; it still put {late[:4]} on the bus afterwards", {**wit, "caller": c})
             if completed and not abnormal and spec["kind"].startswith("seq") and outcome.get(c) != ("done", c):
                 res.violation(f"C15/{driver}/sequence-result-lost", f"run_sequence returned {outcome.get(c)!r}", {**wit, "caller": c})
             if c in gens and spec["badclean"] != "yield" and inspect.getgeneratorstate(gens[c]) not in ("GEN_CLOSED", "GEN_CREATED"):
